@@ -40,7 +40,9 @@ RULE_ADDED = (
               'cells carry -v. '
               ' '
               'Round 10: half of the Ledger onboardings find something else after the re-connec'
-              'tion (blank device, signer, heartbeat app, wrong echo): no PIN goes to it. ')
+              'tion (blank device, signer, heartbeat app, wrong echo): no PIN goes to it. '
+              ' '
+              'Round 11: PINs in which characters repeat. ')
 RULE = RULE + " " + RULE_ADDED.strip()
 ASSUMPTIONS = [
     "simulated devices (pv/simdev) trusted; operator input is scripted, an exhausted script "
